@@ -479,6 +479,11 @@ func worldCorpus() []WSpec {
 				rw(`[{"denom":"ufoo"}]`), rw(`[]`), rw(`[{"denom":"1","amount":"2"}]`), {Kind: "mint", I: 3, Coins: []Pair{{"ufoo", "5"}}},
 				{Kind: "burn", I: 3, Coins: []Pair{{"ufoo", "8"}}}, b, b}},
 		{ID: -6, Accts: empty, Ops: []WOp{en, b, {Kind: "param", Key: "Bogus", Value: "true"}}},
+		// a zero-amount entry beside a positive one: the positive denomination still vests; a denomination repeated
+		// with another one in between is refused (the earlier list stays in force)
+		{ID: -7, Accts: [][]Pair{{{"atele", "7"}, {"ufoo", "9"}}, {}, {}, {}, {}, {}},
+			Ops: []WOp{rw(`[{"denom":"atele","amount":"0"},{"denom":"ufoo","amount":"4"}]`), en, b,
+				rw(`[{"denom":"ufoo","amount":"5"},{"denom":"atele","amount":"3"},{"denom":"ufoo","amount":"5"}]`), b, b, b}},
 	}
 }
 
